@@ -45,6 +45,9 @@ type c14Case struct {
 	// AgeMS: how long the producer has been up (connected, idle) before the first message is handed over; a break
 	// late in the producer's life must be handled like one right after start-up
 	AgeMS int `json:"age_ms,omitempty"`
+	// PadTo > 0: every payload is extended at run time to this many octets with a filler derived from its index
+	// (megabytes of traffic without megabytes of case)
+	PadTo int `json:"pad_to,omitempty"`
 }
 
 const c14Rule = "case = raw-socket producer configuration (tcp | udp, retry-max 0..4) + 1..300 messages (1 octet..48 KiB; JSON-like text rich in %d %s %% %! verbs, quotes, UTF-8 and arbitrary non-newline octets, each tagged with its index) " +
@@ -111,6 +114,8 @@ func genC14(t *rapid.T) c14Case {
 			stalls = append(stalls, 300, 1200, 5500, 11000, 31000)
 		}
 		c.Breaks = []c14Break{{After: rapid.IntRange(1, 40).Draw(t, "slowafter"), Kind: "slow", StallMS: rapid.SampledFrom(stalls).Draw(t, "slowms")}}
+		// more octets than the socket buffers of both ends can absorb, so that the producer really blocks
+		c.PadTo = rapid.SampledFrom([]int{2048, 4096, 8192}).Draw(t, "padto")
 		return c
 	}
 	if c.Protocol == "tcp" && rapid.IntRange(0, 7).Draw(t, "stallplan") == 0 {
@@ -406,6 +411,14 @@ func runC14(c *c14Case) (v verdict, sig string, err error) {
 
 	wireMsgs := make([][]byte, len(c.Msgs))
 	for i, m := range c.Msgs {
+		if c.PadTo > len(m) && c.PadTo <= 65536 {
+			pm := make([]byte, c.PadTo)
+			copy(pm, m)
+			for k := len(m); k < len(pm); k++ {
+				pm[k] = "0123456789abcdefghijklmnopqrstuvwxyz%"[(k+i)%37]
+			}
+			m = pm
+		}
 		wireMsgs[i] = c14Message(i, m)
 	}
 	brkAt := map[int]c14Break{}
